@@ -436,6 +436,10 @@ func (t *ValueSet) result(r Result) Result {
 	// any pointers. We know this to be true already since we analyzed the
 	// function earlier.
 	if !t.lifted() {
+		// Work on a copy: r may be a memoized Result (FuncOnce) whose
+		// outputs must stay as the function returned them.
+		r.out = append([]reflect.Value(nil), r.out...)
+
 		for i := uint8(0); i < t.structPointers; i++ {
 			r.out[0] = r.out[0].Elem()
 		}
